@@ -296,6 +296,9 @@ func visitInstr(fr *frame, instr ssa.Instruction) continuation {
 		}
 
 	case *ssa.Go:
+		if cur != nil {
+			unsupported("go statement (goroutines are not explored)")
+		}
 		fn, args := prepareCall(fr, &instr.Call)
 		atomic.AddInt32(&fr.i.goroutines, 1)
 		go func() {
@@ -648,6 +651,13 @@ func runFrame(fr *frame) {
 		fr.panic = recover()
 		if isEnginePanic(fr.panic) {
 			panic(fr.panic) // not a panic of the target program: no deferred calls run
+		}
+		if cur != nil && cur.panicSite == "" {
+			site := ""
+			for f, n := fr, 0; f != nil && n < 8; f, n = f.caller, n+1 {
+				site += f.fn.String() + " < "
+			}
+			cur.panicSite = site
 		}
 		if fr.i.mode&EnableTracing != 0 {
 			fmt.Fprintf(os.Stderr, "Panicking: %T %v.\n", fr.panic, fr.panic)
